@@ -149,5 +149,148 @@ theorem branch_measures_rel {F : Py.Fld K} {φ : K → K} (hφ : Homog F φ) (no
       | some b =>
         simp only []
         rw [e, hd a b (hb a (List.mem_of_mem_head? h1)) (hb b (List.mem_of_mem_getLast? h2)), hφ.fdiv]
+
+/-! ## the generated feature geometry (`Gen/AlgoNodeFeat`): the table of coordinate rows `axyz`, mapped row by row by `g` -/
+section rows
+open RefineNf
+
+/-- the row map `g` keeps the dimension `d` and turns the norm of every difference of two rows into `φ` of it -/
+structure RowRel (φ : K → K) (norm : List K → K) (d : Nat) (g : List K → List K) : Prop where
+  len : ∀ a, a.length = d → (g a).length = d
+  dist : ∀ a b, a.length = d → b.length = d →
+    norm (List.zipWith (fun x y => x - y) (g a) (g b)) = φ (norm (List.zipWith (fun x y => x - y) a b))
+
+theorem row_map (g : List K → List K) (axyz : List (List K)) (i : Int) (h : Valid axyz i) : row (axyz.map g) i = g (row axyz i) := by
+  unfold row
+  simp [List.getD_eq_getElem?_getD, List.getElem?_map, List.getElem?_eq_getElem h.2]
+
+theorem row_mem (axyz : List (List K)) (i : Int) (h : Valid axyz i) : row axyz i ∈ axyz := by
+  unfold row
+  rw [List.getD_eq_getElem?_getD, List.getElem?_eq_getElem h.2]
+  simp
+
+theorem valid_map (g : List K → List K) (axyz : List (List K)) (i : Int) : Valid (axyz.map g) i ↔ Valid axyz i := by
+  simp [Valid]
+
+theorem vec_map {φ : K → K} {norm : List K → K} {d : Nat} {g : List K → List K} (hg : RowRel φ norm d g) (axyz : List (List K))
+    (hdim : ∀ r ∈ axyz, r.length = d) (a b : Int) (ha : Valid axyz a) (hb : Valid axyz b) :
+    norm (vec (axyz.map g) a b) = φ (norm (vec axyz a b)) := by
+  unfold vec
+  rw [row_map g axyz a ha, row_map g axyz b hb]
+  exact hg.dist _ _ (hdim _ (row_mem axyz b hb)) (hdim _ (row_mem axyz a ha))
+
+theorem sumK_eq (l : List K) : Py.Nf.sumK l = sumFrom 0 l := rfl
+
+theorem geoTree_map {φ : K → K} {norm : List K → K} {d : Nat} {g : List K → List K} (hg : RowRel φ norm d g) {pids : List Int}
+    {axyz : List (List K)} (h : C10.GeoTree pids axyz d) : C10.GeoTree pids (axyz.map g) d :=
+  ⟨by simpa using h.len, h.par, by
+    intro r hr
+    obtain ⟨r0, h0, rfl⟩ := List.mem_map.mp hr
+    exact hg.len _ (h.dim _ h0)⟩
+
+/-- **Tree.length** of the generated code under a row map -/
+theorem tree_length_rel {F : Py.Fld K} {φ : K → K} (hφ : Homog F φ) {norm : List K → K} {d : Nat} {g : List K → List K} (hg : RowRel φ norm d g)
+    (pids : List Int) (axyz : List (List K)) (h : C10.GeoTree pids axyz d) :
+    nf_tree_length norm (Sub.rangeI pids.length) pids (axyz.map g) = (nf_tree_length norm (Sub.rangeI pids.length) pids axyz).map φ := by
+  rw [C10.generated_tree_length norm pids axyz d h, C10.generated_tree_length norm pids (axyz.map g) d (geoTree_map hg h)]
+  simp only [Option.map_some, sumK_eq]
+  congr 1
+  apply sumFrom0_rel hφ
+  intro k hk
+  have hk' : k + 1 < pids.length := by simp at hk; omega
+  have hp : Valid axyz (pids.getD (k + 1) 0) := ⟨(h.par k hk').1, by rw [h.len]; exact (h.par k hk').2⟩
+  have hc : Valid axyz ((k + 1 : Nat) : Int) := ⟨by omega, by rw [h.len]; simpa using hk'⟩
+  simp only [sumFrom, List.foldl_cons, List.foldl_nil]
+  rw [vec_map hg axyz h.dim _ _ hp hc, hφ.add, hφ.zero]
+
+/-- **Path.straight_line_distance** of the generated code under a row map -/
+theorem straight_rel {φ : K → K} {norm : List K → K} {d : Nat} {g : List K → List K} (hg : RowRel φ norm d g) (axyz : List (List K))
+    (hdim : ∀ r ∈ axyz, r.length = d) (a : Int) (mid : List Int) (b : Int) (ha : Valid axyz a) (hb : Valid axyz b) :
+    nf_path_straight norm (axyz.map g) (a :: (mid ++ [b])) = (nf_path_straight norm axyz (a :: (mid ++ [b]))).map φ := by
+  have la := hdim _ (row_mem axyz a ha)
+  have lb := hdim _ (row_mem axyz b hb)
+  rw [straight_refines norm axyz a mid b ha hb (by rw [la, lb]),
+    straight_refines norm (axyz.map g) a mid b ((valid_map g axyz a).2 ha) ((valid_map g axyz b).2 hb)
+      (by rw [row_map g axyz a ha, row_map g axyz b hb, hg.len _ la, hg.len _ lb])]
+  simp only [Option.map_some]
+  rw [vec_map hg axyz hdim a b ha hb]
+
+/-- **NodeFeatures.get_radial_distance** of the generated code under a row map (also when it raises) -/
+theorem radial_rel {φ : K → K} {norm : List K → K} {d : Nat} {g : List K → List K} (hg : RowRel φ norm d g) (ids pids types : List Int)
+    (axyz : List (List K)) (h0 : 0 < axyz.length) (hdim : ∀ r ∈ axyz, r.length = d) :
+    nf_radial_distance norm ids pids types (axyz.map g) = (nf_radial_distance norm ids pids types axyz).map (List.map φ) := by
+  have v0 : Valid axyz 0 := ⟨le_refl _, by simpa using h0⟩
+  have l0 := hdim _ (row_mem axyz 0 v0)
+  have h := radial_refines norm ids pids types axyz h0 (by intro r hr; rw [hdim r hr, l0])
+  have h' := radial_refines norm ids pids types (axyz.map g) (by simpa using h0) (by
+    intro r hr
+    obtain ⟨r0, hr0, rfl⟩ := List.mem_map.mp hr
+    rw [row_map g axyz 0 v0, hg.len _ (hdim _ hr0), hg.len _ l0])
+  by_cases ht : types.head? = some Gen.Consts.type_soma
+  · rw [h.1 ht, h'.1 ht, row_map g axyz 0 v0]
+    simp only [Option.map_some, List.map_map]
+    congr 1
+    apply List.map_congr_left
+    intro r hr
+    exact hg.dist _ _ (hdim r hr) l0
+  · rw [h.2 ht, h'.2 ht]; rfl
+
+/-- **`Path.length` as translated, on ANY path** of rows of one dimension: the sum, in order, of the norms of `xyz[idx[j+1]] − xyz[idx[j]]` -/
+theorem path_length_general (norm : List K → K) (axyz : List (List K)) (d : Nat) (hdim : ∀ r ∈ axyz, r.length = d) (idx : List Int)
+    (hv : ∀ i ∈ idx, Valid axyz i) :
+    nf_path_length norm axyz idx = some (sumFrom 0 (((idx.drop 1).zip (Py.dropEnd idx 1)).map fun e => norm (vec axyz e.2 e.1))) := by
+  have ht := take_rows axyz idx hv
+  have hz : Py.Nf.sub2 ((idx.map (row axyz)).drop 1) (Py.dropEnd (idx.map (row axyz)) 1)
+      = some ((((idx.drop 1).zip (Py.dropEnd idx 1))).map fun e => vec axyz e.2 e.1) := by
+    unfold Py.Nf.sub2
+    rw [if_pos (by simp [Py.dropEnd])]
+    have e : ((idx.map (row axyz)).drop 1).zip (Py.dropEnd (idx.map (row axyz)) 1)
+        = ((idx.drop 1).zip (Py.dropEnd idx 1)).map fun e => (row axyz e.1, row axyz e.2) := by
+      simp only [Py.dropEnd, List.length_map, ← List.map_drop, ← List.map_take, List.zip_map]
+      rfl
+    rw [e, Py.mapOpt_total _ (fun p : List K × List K => List.zipWith (fun x y => x - y) p.1 p.2)]
+    · simp only [List.map_map]; rfl
+    · intro p hp
+      obtain ⟨e0, he0, rfl⟩ := List.mem_map.mp hp
+      have hm := List.of_mem_zip he0
+      have h1 := hdim _ (row_mem axyz _ (hv _ (List.mem_of_mem_drop hm.1)))
+      have h2 := hdim _ (row_mem axyz _ (hv _ (List.mem_of_mem_take hm.2)))
+      simp [Py.Nf.subVec, h1, h2]
+  simp only [nf_path_length, nf_path_length.body, Py.seq, Py.bind, ht, hz]
+  simp [Py.finish, Py.Nf.normRows, sumK_eq, List.map_map, Function.comp_def]
+
+/-- **Path.length** (any path) of the generated code under a row map -/
+theorem path_length_rel {F : Py.Fld K} {φ : K → K} (hφ : Homog F φ) {norm : List K → K} {d : Nat} {g : List K → List K} (hg : RowRel φ norm d g)
+    (axyz : List (List K)) (hdim : ∀ r ∈ axyz, r.length = d) (idx : List Int) (hv : ∀ i ∈ idx, Valid axyz i) :
+    nf_path_length norm (axyz.map g) idx = (nf_path_length norm axyz idx).map φ := by
+  rw [path_length_general norm axyz d hdim idx hv, path_length_general norm (axyz.map g) d (by
+    intro r hr
+    obtain ⟨r0, hr0, rfl⟩ := List.mem_map.mp hr
+    exact hg.len _ (hdim _ hr0)) idx (fun i hi => (valid_map g axyz i).2 (hv i hi))]
+  simp only [Option.map_some]
+  congr 1
+  apply sumFrom0_rel hφ
+  intro e he
+  have hm := List.of_mem_zip he
+  exact vec_map hg axyz hdim _ _ (hv _ (List.mem_of_mem_take hm.2)) (hv _ (List.mem_of_mem_drop hm.1))
+
+/-- **Path.tortuosity** (any path with at least … any path) of the generated code under a row map: unchanged (also the zero-length guard and the
+raising cases) -/
+theorem tortuosity_rel {F : Py.Fld K} {φ : K → K} (hφ : Homog F φ) {norm : List K → K} {d : Nat} {g : List K → List K} (hg : RowRel φ norm d g)
+    (axyz : List (List K)) (hdim : ∀ r ∈ axyz, r.length = d) (a : Int) (mid : List Int) (b : Int)
+    (hv : ∀ i ∈ a :: (mid ++ [b]), Valid axyz i) :
+    nf_path_tortuosity F norm (axyz.map g) (a :: (mid ++ [b])) = nf_path_tortuosity F norm axyz (a :: (mid ++ [b])) := by
+  rw [tortuosity_refines, tortuosity_refines, path_length_rel hφ hg axyz hdim _ hv,
+    straight_rel hg axyz hdim a mid b (hv a List.mem_cons_self) (hv b (by simp))]
+  cases nf_path_length norm axyz (a :: (mid ++ [b])) with
+  | none => rfl
+  | some L =>
+    simp only [Option.map_some, Option.bind_some, hφ.neg, hφ.pos]
+    split
+    · rfl
+    · cases nf_path_straight norm axyz (a :: (mid ++ [b])) with
+      | none => rfl
+      | some S => simp only [Option.map_some, Option.bind_some, hφ.div]
+end rows
 end generic
 end Invar
